@@ -228,13 +228,16 @@ func limiterMain(s *simrt.Sim, info *harness.RunInfo) {
 		cfg.Next = func(c fiber.Ctx) bool { return c.Get("X-Skip") == "1" }
 	}
 	var sim *harness.SimStorage
+	var keyGuard *harness.KeyGuard
 	switch storageKind {
 	case 1, 2:
 		sim = harness.NewSimStorage(s, "limiter-store")
 		sim.Alias = storageKind == 2
+		sim.KeyOracle = "C13.storage-key-aliases-request-buffer"
 		cfg.Storage = sim
 	case 3:
-		cfg.Storage = simexport.NewMemoryStorage()
+		keyGuard = harness.NewKeyGuard(s, simexport.NewMemoryStorage(), "C13.storage-key-aliases-request-buffer")
+		cfg.Storage = keyGuard
 	}
 	sname := [...]string{"memory", "sim-copy", "sim-alias", "storage-memory"}[storageKind]
 	cfgLine := fmt.Sprintf("sliding=%v max=%d E=%d dynMax=%v keys=%d next=%v skipFailed=%v skipOK=%v storage=%s clients=%d preempt=%d",
@@ -317,6 +320,9 @@ func limiterMain(s *simrt.Sim, info *harness.RunInfo) {
 	}
 	join(&wg)
 	s.SetPreempt(0)
+	if keyGuard != nil {
+		keyGuard.Check("at the end of the run")
+	}
 	if s.Failed() {
 		return
 	}
